@@ -265,7 +265,12 @@ def rule_R4(chk, repo):
                f'target `{tvar}`, last argument `{norm(c.args[-1])}`', key=f'{rid}|{q}|thread')
         it = norm(loop.iter)
         nsites = {f'reversed(range({o}))' for o_ in ('psi', 'rho', 'chi', 'op') for o in (f'{o_}.nsites', f'len({o_}.A)')}
-        chk.ob(rid, where(repo, fi, loop), f'{fi.name}: sweep runs right to left over all sites', it in nsites, it,
+        from .arith import _loop_range
+        rg = _loop_range(loop.iter)
+        tops = {f'{o}{sfx}' for o_ in ('psi', 'rho', 'chi', 'op') for o in (f'{o_}.nsites', f'len({o_}.A)')
+                for sfx in (' - 1',)} | {f'-1 + {o}' for o_ in ('psi', 'rho', 'chi', 'op') for o in (f'{o_}.nsites', f'len({o_}.A)')}
+        down = rg is not None and rg[2] == -1 and str(rg[1]) == '0' and str(rg[0]) in tops
+        chk.ob(rid, where(repo, fi, loop), f'{fi.name}: sweep runs right to left over all sites', it in nsites or down, it,
                key=f'{rid}|{q}|sweep')
         n += 2
         # initial environment: identity on the trailing bond dimension
